@@ -16,7 +16,7 @@ def place_demo():
     for f in glob.glob(os.path.join(md, "demo*.diff")):
         rc, out = sh(["git", "apply", f]); assert rc == 0, out
         placed.append(f)
-    for f in glob.glob(os.path.join(md, "demo*.rs")):
+    for f in ([] if placed else glob.glob(os.path.join(md, "demo*.rs"))):
         if "sched" in os.path.basename(f):
             continue
         os.makedirs(os.path.join(wt, "tests"), exist_ok=True)
